@@ -42,6 +42,8 @@ func (sim) Rule(prop string) string {
 		return "C06: a case is (wallet history: receipts on all four default address types and two accounts, coinbase credits near maturity, locks, leases, clock, blocks, reorgs; requests: SendOutputs / dry CreateSimpleTx / SendOutputsWithInput with eligible and ineligible explicit inputs, random outputs, fee rates, minconf, scope, account, selection strategy; 1-4 concurrent senders)."
 	case "C20":
 		return "C20: a case is (wallet history of receipts, sends incl. chained unconfirmed ones, built-then-published transactions, leases, blocks, restarts; at every broadcast — initial and each re-broadcast after a restart — a backend answer class: accepted, already in mempool, already confirmed, rejected (fee / generic / conflict), transport error, subscription failure)."
+	case "C10":
+		return "C10 (wallet level): the C03/C05/C08 wallet-level workload with a database fault (the k-th mutating call of the next operation, or its commit) in front of account-import previews, imports, NextAccount and address requests; after a fault fired the running wallet must answer as a manager opened on the database, previews of fresh keys must show those keys, and everything that follows in the run is attributed to the failed operation."
 	case "C03", "C05", "C08":
 		return prop + " (wallet level): a case is (addresses on the default scopes, optional receipts, then a mix of account-import previews (ImportAccountDryRun: seven key-version x address-type variants, 1-4 foreign keys), real imports (often into the scope just previewed with another key or format), NextAccount, addresses of own and imported accounts, dry-run sends, renames, wallet lock / account operations while locked / unlock, restarts, blocks, restart observations, private-key checks)."
 	case "C13":
@@ -85,6 +87,8 @@ func (sim) Explain(prop string, st map[string]int64) string {
 		probes = []string{"probe.rejection-with-other-unmined", "probe.chained-unconfirmed-send", "probe.already-in-mempool", "probe.already-confirmed",
 			"probe.rejection-of-recorded-tx", "probe.resend-with-unmined", "probe.resend-chain", "fault.backend-answer.transport", "fault.backend-answer.reject-fee",
 			"fault.backend-answer.reject-generic", "fault.backend-answer.reject-conflict", "fault.backend-answer.notify-received-fails", "fault.backend-answer.notify-received-2nd-fails", "probe.resend-rejected", "probe.rejection-with-recorded-child", "probe.resend-child-of-two-outputs-of-one-parent", "probe.foreign-child-of-wallet-tx"}
+	case "C10":
+		probes = []string{"fault.db.write", "fault.db.commit", "probe.fault-fired-in:importdry2", "probe.fault-fired-in:importacct", "probe.fault-fired-in:newaddr", "probe.fault-fired-in:newaddri", "probe.fault-fired-in:newacct", "probe.restart-observations"}
 	case "C03", "C05", "C08":
 		probes = []string{"probe.account-import-preview", "probe.preview-while-locked", "probe.account-imported", "probe.import-after-preview", "probe.imported-address-checked",
 			"probe.restart-observations", "probe.next-address-compared", "probe.private-key-checked", "probe.private-access-while-locked"}
@@ -136,6 +140,8 @@ func (sim) Generate(prop, tier string, seed uint64) *core.Plan {
 		genC01w(r, p)
 	case "C03", "C05", "C08":
 		genAcctW(r, p)
+	case "C10":
+		genAcctWFaults(r, p)
 	}
 	return p
 }
@@ -342,6 +348,7 @@ type runState struct {
 	section                 int
 	renames                 int
 	previews, imports, obsN int
+	faultArmed              bool
 }
 
 func (sim) Execute(env *core.Env, p *core.Plan) {
@@ -431,6 +438,9 @@ func (rs *runState) run() {
 			continue
 		}
 		rs.exec(0, i, op)
+		if rs.faultArmed && op.K != "faultnext" {
+			rs.afterFault(i, op.K)
+		}
 		if x.prop == "C01" {
 			x.checkC01w(fmt.Sprintf("after op %d %s", i, op.K))
 		}
@@ -525,6 +535,9 @@ func (rs *runState) exec(task, step int, op core.Op) {
 		if err != nil {
 			rs.errs[name]++
 			env.Logf("%d t%d %s scope=%d err=%v", step, task, name, scope.Purpose, err)
+			if injected(err) {
+				return
+			}
 			x.fail("issuing-call-failed:"+name, "%s(account 0, scope %v) failed without any injected fault: %v", name, scope, err)
 			return
 		}
@@ -872,6 +885,8 @@ func (rs *runState) exec(task, step int, op core.Op) {
 		if x.running {
 			rs.importdry(step, op)
 		}
+	case "faultnext":
+		rs.faultnext(step, op)
 	case "importdry2":
 		if x.running {
 			rs.importdry2(step, op)
